@@ -15,7 +15,7 @@ rc, out = vlib.lake_build(ctx, ["driver"])
 if rc: print(out[-3000:]); sys.exit(1)
 h = vlib.build_harness(ctx, faketime=ft)
 open_line = "open a pebble /tmp/dbg-pebble" if "pebble" in sys.argv[4:] else "open a mem"
-ops = gen_api.stream(ctx.rng, fams, n, events=events, open_line=open_line)
+ops = gen_api.stream(ctx.rng, fams, n, events=events, open_line=open_line, realtime=not ft)
 vlib.correspond_stream(ctx, h, ops, "dbg")
 print("violations", len(ctx.violations), "evals", ctx.cov["evaluations"], "notes", ctx.notes)
 for p, _ in ctx.violations:
